@@ -173,6 +173,17 @@ pub fn eval(op: &str, input: &mut Value) -> OpResult {
       let _ = cycles;
       Ok(json!({"deps": deps, "cyclic": cyclic, "reachable": reachable.map(|r| r.into_iter().collect::<Vec<_>>())}))
     }
+    "registry.build" => {
+      let spec_text = match &input["spec"] {
+        Value::String(s) => s.clone(),
+        other => other.to_string(),
+      };
+      let spec: oas3::Spec = serde_json::from_str::<oas3::OpenApiV3Spec>(&spec_text).map_err(|e| format!("spec-parse: {e}"))?;
+      let only = set_of(&input["only"]);
+      let exclude = set_of(&input["exclude"]);
+      let registry = OperationRegistry::with_filters(&spec, only.as_ref(), exclude.as_ref());
+      Ok(Value::Array(registry.operations().map(|e| json!([e.stable_id, e.method.as_str(), e.path])).collect()))
+    }
     "graph.emit" => {
       let (files, stats) = match k_gen::generate(input) {
         Ok(x) => x,
